@@ -74,11 +74,13 @@ class Contract:
         self.loops = {}
         self.loop_ghosts = {}      # loop key -> {ghost name -> (init expr, step expr)}
         self.entry_asserts = []
+        self.return_hints = []     # lemma instances assumed at return points (locals and `result` visible)
         self.yield_view = None     # generators yielding objects: lambda obj: tuple of its fields recorded in `yielded`
         self.opaque_here = []      # spec functions not to unfold in this contract's obligations
         self.unfold_here = []      # lazily unfolded spec functions (verifier.LAZY_SPECS) to unfold here
         self.loop_hints = {}       # loop key -> [lemma-instance lambdas] assumed at the head of the body
         self.exit_hints = {}       # loop key -> [lemma-instance lambdas] assumed after the loop
+        self.call_hints = {}       # call key ("callee#k" or "callee") -> [lemma-instance lambdas] assumed before the call
         self.call_ghosts = {}
         self.call_behaviors = {}
         self.returns = "py"
@@ -188,6 +190,8 @@ def load_file(path, modname):
                 c.decreases = _lam(val)
             elif nm == "hints":
                 c.hints = [_lam(e) for e in val.elts]
+            elif nm == "return_hints":
+                c.return_hints = [_lam(e) for e in val.elts]
             elif nm == "entry_asserts":
                 # ghost assertions at function entry: each is an obligation (proved from the precondition)
                 # and then available on every path -- keeps later queries from re-deriving it
@@ -230,7 +234,7 @@ def load_file(path, modname):
                 c.fresh_result = _lit(val)
             elif nm == "loops":
                 c.loops = _dict_of(val, _lam)
-            elif nm in ("loop_hints", "exit_hints"):
+            elif nm in ("loop_hints", "exit_hints", "call_hints"):
                 # lemma instances assumed at the head of an arbitrary iteration (after the invariant) /
                 # right after the loop; each lemma is proved separately in the same run
                 setattr(c, nm, _dict_of(val, lambda v: [_lam(e) for e in v.elts]))
